@@ -96,6 +96,27 @@ theorem page_safe (parts : List (List Char)) (clientLeader serverLeader clientDu
     · exact (sanitise_no_lt _).2
     · exact (messageDisplay_no_markup texts).2
 
+/-- Text without markup is reported unchanged (the sanitiser only touches `<` and `>`). -/
+theorem sanitise_id_of_clean : ∀ (s : List Char), '<' ∉ s → '>' ∉ s → sanitise s = s
+  | [], _, _ => rfl
+  | c :: rest, h1, h2 => by
+    have hc1 : c ≠ '<' := fun h => h1 (by simp [h])
+    have hc2 : c ≠ '>' := fun h => h2 (by simp [h])
+    have ih := sanitise_id_of_clean rest (fun h => h1 (List.mem_cons_of_mem _ h)) (fun h => h2 (List.mem_cons_of_mem _ h))
+    simp [sanitise, hc1, hc2, ih]
+
+/-- Sanitising twice equals sanitising once: already escaped text is not escaped again. -/
+theorem sanitise_idempotent (s : List Char) : sanitise (sanitise s) = sanitise s :=
+  sanitise_id_of_clean _ (sanitise_no_markup s).1 (sanitise_no_markup s).2
+
+/-- The relay does not depend on how the client's bytes arrive in chunks. -/
+theorem relay_chunking_irrelevant (c1 c2 : List Bytes) (h : c1.flatten = c2.flatten) :
+    clientLoop c1 = clientLoop c2 := by
+  have a := relay_exact c1; have b := relay_exact c2
+  apply Prod.ext
+  · rw [a.2, b.2, h]
+  · rw [a.1, b.1, h]
+
 /-! Non-vacuity (tests). -/
 example : sanitise "<script>alert(1)</script>".toList = "&lt;script&gt;alert(1)&lt;/script&gt;".toList := by decide
 example : clientLoop [[1, 2], [3]] = ([1, 2, 3], [1, 2, 3]) := by decide
